@@ -558,3 +558,32 @@ Proof.
   - destruct (is_nil ks); [reflexivity|]. specialize (Hb remove_locked Hr ks b 0).
     destruct (batch remove_locked ks b 0) as [n b']. now destruct (n =? 0).
 Qed.
+
+(* ---------------------------------------------------------------- the background re-read (refreshRemote) *)
+
+(* when nothing is in flight — the file is a listing of the memory — parsing it again
+   into the live list changes nothing *)
+Lemma step_key_present w en b : good_entry w en -> bw b = w ->
+  match en with EPlain e => In e (bm b) | EWild s => In s (bwild b) end ->
+  step_key (line_of en) b = b.
+Proof.
+  intros Hg Hw Hin. unfold step_key. destruct (bl_exists b (line_of en)); [reflexivity|].
+  rewrite (set_locked_good w en b Hg Hw). destruct b as [m wl w']. cbn in *. subst w'.
+  destruct en as [e|s]; unfold add; apply mem_In in Hin; now rewrite Hin.
+Qed.
+
+Lemma refresh_idle_lemma w v ex wi b :
+  bw b = w -> Permutation ex (bm b) -> Permutation wi (bwild b) ->
+  Forall (good_entry w) (entries_of ex wi) ->
+  parse_bytes (snap_bytes (mk_snap v ex wi)) b = b.
+Proof.
+  intros Hw P1 P2 Hg. rewrite (parse_snapshot v ex wi b (good_clean w _ Hg) (good_canonical w _ Hg)).
+  assert (Hall : forall en, In en (entries_of ex wi) ->
+                 match en with EPlain e => In e (bm b) | EWild s => In s (bwild b) end).
+  { intros en Hen. unfold entries_of in Hen. apply in_app_iff in Hen as [H|H]; apply in_map_iff in H as (x & <- & Hx).
+    - eapply Permutation_in; eauto.
+    - eapply Permutation_in; eauto. }
+  induction (entries_of ex wi) as [|en l IH]; [reflexivity|]. cbn [map fold_left].
+  inversion Hg; subst. rewrite (step_key_present (bw b) en b); auto; [|apply Hall; now left].
+  apply IH; [assumption|]. intros x Hx. apply Hall. now right.
+Qed.
